@@ -48,6 +48,20 @@ pub struct SolverCache<D: DependencyProvider> {
     hint_dependencies_available: RefCell<BitVec>,
 }
 
+/// Marks a request for the candidates of a package as no longer in flight when dropped.
+struct InFlightGuard<'a> {
+    in_flight: &'a RefCell<HashMap<NameId, Rc<Event>>>,
+    package_name: NameId,
+}
+
+impl Drop for InFlightGuard<'_> {
+    fn drop(&mut self) {
+        if let Some(notifier) = self.in_flight.borrow_mut().remove(&self.package_name) {
+            notifier.notify(usize::MAX);
+        }
+    }
+}
+
 impl<D: DependencyProvider> SolverCache<D> {
     /// Constructs a new instance from a provider.
     pub fn new(provider: D) -> Self {
@@ -108,10 +122,18 @@ impl<D: DependencyProvider> SolverCache<D> {
                             .expect("after waiting for a request the result should be available")
                     }
                     None => {
-                        // Prepare an in-flight notifier for other requests coming in.
+                        // Prepare an in-flight notifier for other requests coming in. The
+                        // guard removes it again (and wakes any waiters) when the result
+                        // has been stored below, or when this request is dropped before
+                        // it completes, e.g. because solving was cancelled. Without the
+                        // latter a later request for the same package would wait forever.
                         self.package_name_to_candidates_in_flight
                             .borrow_mut()
                             .insert(package_name, Rc::new(Event::new()));
+                        let in_flight_guard = InFlightGuard {
+                            in_flight: &self.package_name_to_candidates_in_flight,
+                            package_name,
+                        };
 
                         // Otherwise we have to get them from the DependencyProvider
                         let candidates = self
@@ -147,12 +169,7 @@ impl<D: DependencyProvider> SolverCache<D> {
 
                         // Remove the in-flight request now that we inserted the result and notify
                         // any waiters
-                        let notifier = self
-                            .package_name_to_candidates_in_flight
-                            .borrow_mut()
-                            .remove(&package_name)
-                            .expect("notifier should be there");
-                        notifier.notify(usize::MAX);
+                        drop(in_flight_guard);
 
                         candidates_id
                     }
